@@ -3,6 +3,7 @@ package worker
 import (
 	"context"
 	"fmt"
+	"grog/internal/verifhook"
 	"runtime"
 	"sync"
 	"sync/atomic"
@@ -112,6 +113,7 @@ func (twp *TaskWorkerPool[T]) worker(ctx context.Context, workerId int) {
 			}
 
 			twp.setTaskState(workerId, Status(fmt.Sprintf("Starting task %d on worker %d", j.id+1, workerId)), zapcore.DebugLevel)
+			verifhook.Event("pool.task.begin", fmt.Sprint(workerId))
 			res, err := j.task(func(status StatusUpdate) {
 				taskStatus := status.Status
 				if isDebug {
@@ -120,6 +122,7 @@ func (twp *TaskWorkerPool[T]) worker(ctx context.Context, workerId int) {
 				twp.setTaskState(workerId, StatusUpdate{Status: taskStatus, Progress: status.Progress}, zapcore.InfoLevel)
 			})
 
+			verifhook.Event("pool.task.end", fmt.Sprint(workerId))
 			if j.result != nil {
 				j.result <- TaskResult[T]{Return: res, Error: err}
 				close(j.result)
